@@ -21,6 +21,10 @@ os.environ.setdefault("SNAX_MLIR_VERIF", "1")
 
 import xdsl.irdl.operations as _ops  # noqa: E402
 
+from . import sym as _sym  # noqa: E402
+
+_sym.install_c_guards()  # before any snaxc module binds `from math import gcd` etc.
+
 if not getattr(_ops.OpDef, "_verif_shimmed", False):
     _orig = _ops.OpDef.from_pyrdl
 
